@@ -9,6 +9,7 @@ import (
 	"sync"
 	"sync/atomic"
 	"time"
+	"verifharness/internal/fakes"
 
 	consensusclient "github.com/attestantio/go-eth2-client"
 	"github.com/attestantio/go-eth2-client/api"
@@ -408,7 +409,7 @@ func buildController(sc *Scenario) (world, error) {
 	evp := newEventsCapture()
 	ctx, cancel := context.WithCancel(context.Background())
 	w.cancel = cancel
-	w.baseG = runtime.NumGoroutine()
+	w.baseG = fakes.GoroutineCount()
 	svc, err := controller.New(ctx,
 		controller.WithLogLevel(zerolog.Disabled),
 		controller.WithMonitor(nullmetrics.New()),
